@@ -148,6 +148,27 @@ theorem initGuess_length {nvecs : Nat → Dense ℝ → Nat → Nat → Mat ℝ}
         simpa using this
       · cases h
 
+/-- A successful run was given ranks between one and the mode sizes (35fe719), one per mode (11afd42). -/
+theorem tuckerAlsRun_ranks {nvecs : Nat → Dense ℝ → Nat → Nat → Mat ℝ} {uniform : Nat → Nat → Nat → Mat ℝ}
+    {X : Dense ℝ} {rank : List Nat} {stoptol : ℝ} {maxiters : Int} {dimorder : Option (List Nat)} {init : Init ℝ}
+    {out : TaOut ℝ} {recs : List (IterRec ℝ)}
+    (h : tuckerAlsRun realOps nvecs uniform X rank stoptol maxiters dimorder init = .ok (out, recs)) :
+    (parseRank rank X.shape.length).length = X.shape.length ∧
+    (∀ r ∈ parseRank rank X.shape.length, 1 ≤ r) ∧
+    ∀ n < X.shape.length, (parseRank rank X.shape.length).getD n 0 ≤ X.shape.getD n 0 := by
+  unfold tuckerAlsRun at h
+  simp only at h
+  split at h
+  · cases h
+  split at h
+  · cases h
+  rename_i h1b
+  split at h
+  · cases h
+  rename_i h1c
+  simp only [Bool.or_eq_true, not_or, Bool.not_eq_true, List.any_eq_false, decide_eq_true_eq, not_lt] at h1c
+  exact ⟨by simpa using h1b, h1c.1, ranksExceed_false.1 h1c.2⟩
+
 /-- Unfolding of a successful run. -/
 theorem tuckerAlsRun_ok {nvecs : Nat → Dense ℝ → Nat → Nat → Mat ℝ} {uniform : Nat → Nat → Nat → Mat ℝ}
     {X : Dense ℝ} {rank : List Nat} {stoptol : ℝ} {maxiters : Int} {dimorder : Option (List Nat)} {init : Init ℝ}
@@ -168,6 +189,8 @@ theorem tuckerAlsRun_ok {nvecs : Nat → Dense ℝ → Nat → Nat → Mat ℝ} 
   split at h
   · cases h
   rename_i h1b
+  split at h
+  · cases h
   split at h
   · cases h
   rename_i h2
